@@ -4,6 +4,7 @@ import (
 	"encoding/json"
 	"fmt"
 	"sort"
+	"strings"
 	"time"
 
 	"com.tuntun.rangers/node/src/common"
@@ -39,6 +40,7 @@ type c17Tx struct {
 	Sender int    `json:"s"`
 	Nonce  uint64 `json:"n"`
 	ReqID  uint64 `json:"r,omitempty"`
+	Big    int    `json:"big,omitempty"` // payload size in KiB (executed records above 100 KiB are flushed in several batches)
 }
 
 type c17Plan struct {
@@ -87,8 +89,12 @@ func (c17) Gen(seed uint64, tier string) json.RawMessage {
 		ntx = r.Range(205, 260)
 	}
 	next := map[int]uint64{}
+	bigPayloads := !big && r.Chance(0.2)
 	for i := 0; i < ntx; i++ {
 		t := c17Tx{Sender: r.Intn(5)}
+		if bigPayloads && r.Chance(0.6) {
+			t.Big = r.Range(30, 70)
+		}
 		if r.Chance(0.25) {
 			t.ReqID = uint64(r.Range(1, 50))
 		}
@@ -121,7 +127,7 @@ func (c17) Gen(seed uint64, tier string) json.RawMessage {
 			p.Ops = append(p.Ops, c17Op{K: "pack", S: r.Intn(3)})
 		case x < 65:
 			blk++
-			p.Ops = append(p.Ops, c17Op{K: "mark", B: blk, N: r.Range(0, 4), E: r.Intn(2)})
+			p.Ops = append(p.Ops, c17Op{K: "mark", B: blk, N: r.Range(0, 6), E: r.Intn(2)})
 		case x < 77:
 			if blk > 0 {
 				p.Ops = append(p.Ops, c17Op{K: "unmark", B: r.Range(1, blk)})
@@ -199,7 +205,11 @@ func (c17) Exec(raw json.RawMessage, st *simrt.Stats, log *simrt.Log) *simrt.Vio
 	var txs []*types.Transaction
 	byHash := map[common.Hash]int{}
 	for i, t := range p.Txs {
-		tx := node.RawTx(types.TransactionTypeOperatorEvent, node.Account(t.Sender), "", t.Nonce, "", "", fmt.Sprintf("p%d", i))
+		data := ""
+		if t.Big > 0 {
+			data = strings.Repeat("d", t.Big*1024)
+		}
+		tx := node.RawTx(types.TransactionTypeOperatorEvent, node.Account(t.Sender), "", t.Nonce, data, "", fmt.Sprintf("p%d", i))
 		tx.RequestId = t.ReqID
 		txs = append(txs, tx)
 		byHash[tx.Hash] = i
